@@ -94,6 +94,11 @@ func oracle(s *scen, w *world.World) error {
 		if !f.Accept {
 			continue
 		}
+		// byte-exact: the record holds what crossed the connection, so the crawler must have read
+		// the whole body of every response it lets the writer record
+		if f.End >= 0 && f.BodyRead != f.BodyLen {
+			return fmt.Errorf("payload-truncated: the accepted %d response of %s (attempt %d) was closed after %d of %d body bytes: its record cannot be byte-identical", f.Status, f.URL, f.Attempt, f.BodyRead, f.BodyLen)
+		}
 		i, ok := owner[f.URL]
 		if !ok || shared[f.URL] {
 			continue
@@ -151,6 +156,7 @@ func scenarios(tier string) []scen {
 		world.MkSite("page+404+redirect asset", "page", []string{"404", "redir"}),
 		world.MkSite("page+flaky (500 then 200)", "page", []string{"flaky"}),
 		world.MkSite("page+always 500", "page", []string{"500"}),
+		{Name: "page+always 500 with a 1.5 MiB error page", Seeds: []string{H + "/page"}, Nodes: []world.Node{page(H+"/page", H+"/bigboom.png"), {URL: H + "/bigboom.png", Kind: "fail5xx-big"}}},
 		world.MkSite("page+429 (discarded, retried)", "page", []string{"429", "bin"}),
 		{Name: "page+cloudflare challenge (discarded, retried)", Seeds: []string{H + "/page"}, Nodes: []world.Node{page(H+"/page", H+"/cf.png", H+"/a.png"),
 			{URL: H + "/cf.png", Kind: "status", Code: 403, Header: map[string]string{"cf-mitigated": "challenge"}}, {URL: H + "/a.png", Kind: "bin"}}},
